@@ -600,24 +600,28 @@ Lemma status_of_count_zero : status_of_count 0 mod 256 = 0.
 Proof. reflexivity. Qed.
 
 (* ---- the session ------------------------------------------------------------------------------ *)
-Lemma session_errors_count fs :
-  r_errors (session fs) = Z.of_nat (length (r_msgs (session fs))).
+Lemma all_errs_count fs : all_errs fs = Z.of_nat (length (all_msgs fs)).
 Proof.
   induction fs as [|[name ls] rest IH]; [reflexivity|].
-  cbn [session]. destruct (s_errs (parse_file name [] ls) >? 0); [|exact IH].
-  cbn. apply parse_file_errs.
+  cbn [all_errs all_msgs]. rewrite app_length, Nat2Z.inj_add, <- IH, parse_file_errs. reflexivity.
 Qed.
+
+Lemma all_errs_nonneg fs : 0 <= all_errs fs.
+Proof. rewrite all_errs_count. lia. Qed.
+
+Lemma session_errors_count fs :
+  r_errors (session fs) = Z.of_nat (length (r_msgs (session fs))).
+Proof. apply all_errs_count. Qed.
+
+Lemma session_errors_nonneg fs : 0 <= r_errors (session fs).
+Proof. apply all_errs_nonneg. Qed.
 
 Lemma session_report_iff fs : r_report (session fs) = true <-> r_errors (session fs) = 0.
 Proof.
-  induction fs as [|[name ls] rest IH]; [split; reflexivity|].
-  cbn [session]. destruct (s_errs (parse_file name [] ls) >? 0) eqn:E; [|exact IH].
-  cbn. pose proof (Zgt_cases (s_errs (parse_file name [] ls)) 0) as H. rewrite E in H.
-  split; [discriminate|lia].
+  unfold session. cbn [r_report r_errors].
+  pose proof (Zgt_cases (all_errs fs) 0) as H. pose proof (all_errs_nonneg fs) as H0.
+  destruct (all_errs fs >? 0); cbn; split; try discriminate; try reflexivity; lia.
 Qed.
-
-Lemma session_errors_nonneg fs : 0 <= r_errors (session fs).
-Proof. rewrite session_errors_count. lia. Qed.
 
 Lemma session_no_partial_report fs : r_errors (session fs) > 0 -> r_report (session fs) = false.
 Proof.
@@ -627,64 +631,69 @@ Qed.
 
 Lemma session_status_iff fs : r_status (session fs) <> 0 <-> r_errors (session fs) > 0.
 Proof.
-  induction fs as [|[name ls] rest IH]; [cbn; split; [congruence|lia]|].
-  cbn [session]. destruct (s_errs (parse_file name [] ls) >? 0) eqn:E; [|exact IH].
-  cbn. pose proof (Zgt_cases (s_errs (parse_file name [] ls)) 0) as H. rewrite E in H.
-  split; [intros _; exact H|intros _; apply status_of_count_nonzero; exact H].
+  unfold session. cbn [r_status r_errors].
+  pose proof (Zgt_cases (all_errs fs) 0) as H.
+  destruct (all_errs fs >? 0).
+  - split; [intros _; exact H|intros _; apply status_of_count_nonzero; exact H].
+  - split; [congruence|lia].
+Qed.
+
+(* every -f file is read: stderr is what the files write one after the other, the count their sum *)
+Lemma session_msgs fs :
+  r_msgs (session fs) =
+  flat_map (fun f => expected (fst f) [] 1 (items (snd f))) fs.
+Proof.
+  unfold session. cbn [r_msgs].
+  induction fs as [|[name ls] rest IH]; [reflexivity|].
+  cbn [all_msgs flat_map fst snd]. rewrite IH, parse_file_msgs. reflexivity.
+Qed.
+
+Lemma all_errs_zero_iff fs :
+  all_errs fs = 0 <-> (forall f, In f fs -> file_clean (snd f) = true).
+Proof.
+  induction fs as [|[name ls] rest IH].
+  - cbn. split; [intros _ f []|reflexivity].
+  - cbn [all_errs]. pose proof (errs_nonneg name [] ls) as H1. pose proof (all_errs_nonneg rest) as H2.
+    split.
+    + intros H f [<-|Hf].
+      * cbn. apply (errs_zero_iff_clean name []). lia.
+      * apply IH; [lia|exact Hf].
+    + intros H.
+      assert (E1 : s_errs (parse_file name [] ls) = 0)
+        by (apply errs_zero_iff_clean; apply (H (name, ls)); left; reflexivity).
+      assert (E2 : all_errs rest = 0) by (apply IH; intros f Hf; apply H; right; exact Hf).
+      lia.
 Qed.
 
 Lemma session_clean fs :
   (forall f, In f fs -> file_clean (snd f) = true) -> session fs = mk_result [] 0 0 true.
 Proof.
-  induction fs as [|[name ls] rest IH]; intros H; [reflexivity|].
-  cbn [session].
-  assert (E : s_errs (parse_file name [] ls) = 0)
-    by (apply errs_zero_iff_clean; apply (H (name, ls)); left; reflexivity).
-  rewrite E. cbn. apply IH. intros f Hf. apply H. right. exact Hf.
+  intros H. pose proof (proj2 (all_errs_zero_iff fs) H) as E.
+  unfold session. rewrite E. cbn.
+  pose proof (all_errs_count fs) as C. rewrite E in C.
+  destruct (all_msgs fs); [reflexivity|cbn [length] in C; lia].
 Qed.
 
 Lemma session_unclean fs :
   (exists f, In f fs /\ file_clean (snd f) = false) -> r_errors (session fs) > 0.
 Proof.
-  induction fs as [|[name ls] rest IH]; intros [f [Hin Hf]]; [destruct Hin|].
-  cbn [session]. destruct (s_errs (parse_file name [] ls) >? 0) eqn:E.
-  - cbn. pose proof (Zgt_cases (s_errs (parse_file name [] ls)) 0) as H. rewrite E in H. exact H.
-  - apply IH. destruct Hin as [<-|Hin]; [|exists f; split; assumption].
-    exfalso. pose proof (Zgt_cases (s_errs (parse_file name [] ls)) 0) as H. rewrite E in H.
-    pose proof (errs_nonneg name [] ls) as H0.
-    assert (Z0 : s_errs (parse_file name [] ls) = 0) by lia.
-    apply errs_zero_iff_clean in Z0. cbn in Hf. congruence.
+  intros [f [Hin Hf]]. unfold session. cbn [r_errors].
+  pose proof (all_errs_nonneg fs) as H0.
+  destruct (Z.eq_dec (all_errs fs) 0) as [E|E]; [|lia].
+  pose proof (proj1 (all_errs_zero_iff fs) E f Hin). congruence.
 Qed.
 
 Lemma session_single name ls :
   r_msgs (session [(name, ls)]) = expected name [] 1 (items ls).
-Proof.
-  cbn [session]. destruct (s_errs (parse_file name [] ls) >? 0) eqn:E.
-  - cbn. apply parse_file_msgs.
-  - pose proof (Zgt_cases (s_errs (parse_file name [] ls)) 0) as H. rewrite E in H.
-    pose proof (errs_nonneg name [] ls) as H0.
-    assert (Z0 : s_errs (parse_file name [] ls) = 0) by lia.
-    rewrite parse_file_errs in Z0. rewrite <- parse_file_msgs.
-    destruct (s_msgs (parse_file name [] ls)); [reflexivity|cbn [length] in Z0; lia].
-Qed.
+Proof. rewrite session_msgs. cbn. apply app_nil_r. Qed.
 
-(* several -f files: reading stops at the first file with errors *)
-Lemma session_first_failure name ls rest :
-  file_clean ls = false ->
-  session ((name, ls) :: rest) = session [(name, ls)].
+Lemma session_errors_sum fs :
+  r_errors (session fs) =
+  fold_right Z.add 0 (map (fun f => s_errs (parse_file (fst f) [] (snd f))) fs).
 Proof.
-  intros H. cbn [session].
-  destruct (s_errs (parse_file name [] ls) >? 0) eqn:E; [reflexivity|].
-  exfalso. pose proof (Zgt_cases (s_errs (parse_file name [] ls)) 0) as H1. rewrite E in H1.
-  pose proof (errs_nonneg name [] ls) as H0.
-  assert (Z0 : s_errs (parse_file name [] ls) = 0) by lia.
-  apply errs_zero_iff_clean in Z0. congruence.
-Qed.
-
-Lemma session_skip_clean name ls rest :
-  file_clean ls = true -> session ((name, ls) :: rest) = session rest.
-Proof.
-  intros H. cbn [session]. apply (errs_zero_iff_clean name []) in H. rewrite H. reflexivity.
+  unfold session. cbn [r_errors].
+  induction fs as [|[name ls] rest IH]; [reflexivity|].
+  cbn [all_errs map fold_right fst snd]. rewrite IH. reflexivity.
 Qed.
 
 (* ---- what one item contributes ----------------------------------------------------------- *)
